@@ -58,6 +58,13 @@ Example C07_witness_function_arg_term_alias :   (* Snowflake: an aliased literal
   query_text w_fn_term_alias = w_fn_term_alias_text /\ res_text (str_toks rid FUEL w_fn_term_alias) = w_fn_term_alias_text
   /\ strict_ok w_fn_term_alias = false.
 Proof. vm_compute. repeat split. Qed.
+Example C07_witness_table_alias_qualifier :     (* Snowflake: table alias quoted where introduced, bare where it qualifies a column *)
+  query_text w_qualifier = w_qualifier_text /\ res_text (str_toks rid FUEL w_qualifier) = w_qualifier_text /\ strict_ok w_qualifier = false.
+Proof. vm_compute. repeat split. Qed.
+Example C07_witness_set_operation_alias :       (* Snowflake: a set operation's alias is quoted, references to it are bare *)
+  query_text w_setop_alias = w_setop_alias_text /\ res_text (str_toks rid FUEL w_setop_alias) = w_setop_alias_text
+  /\ strict_ok w_setop_alias = false.
+Proof. vm_compute. repeat split. Qed.
 Example C07_witness_function_arg_groupby_alias : (* Oracle outer: groupby_alias=False is lost below a function call *)
   query_text w_fn_gba = w_fn_gba_text /\ res_text (str_toks rid FUEL w_fn_gba) = w_fn_gba_text.
 Proof. vm_compute. repeat split. Qed.
